@@ -1,5 +1,6 @@
 (* C14 — (r,Q) evaluators equal their definitions and the Poisson (Federgruen-Zheng) algorithm is optimal.
-   Statements only; every proof is [exact <lemma of Alg/RQ_proofs.v or Alg/RQTol_proofs.v>].
+   Statements only; every proof is [exact <lemma of Alg/RQ_proofs.v, RQTol_proofs.v, RQTerm_proofs.v, RQ_witnesses.v or (second part: the
+   source-generated terms gen/Gen_rq.v, gen/Gen_ss.v over the reals; axioms listed by Print Assumptions) RQGen_proofs.v, SqrtQ_proofs.v>].
    Model: Alg/RQ.v. g : Z -> Q is the newsvendor cost (newsvendor_poisson_cost as a function of the base-stock
    level), F the Poisson cdf, both inputs; K lam = fixed_cost * demand_mean.
    rq_cost_def g K lam r n = (K lam + sum_{y=r+1}^{r+n} g y) / n  is the documented cost (5.48). *)
